@@ -10,7 +10,10 @@ belongs to, so that the owning checks find the defect on the pre-fix tree and re
                                   (`switch x := x.(type)` with x unused: Go rejects it)                            fix 9ebb9f7
   helper-types-of-definitions     a struct / enum no function mentions, with tuple / array / Ref / Vec fields
                                   (undeclared helper type in the emitted Go)                                       fix 43b13aa
+  type-parameter-applied          `T[int32]` with T a type parameter, used as a receiver / field base / argument
+                                  (panic in the inherent-method lookup)                                            fix b540838
 (a user type named `main` - fix 9b08b00 - is part of C19's renaming family.)"""
+import zlib
 from gast import *
 
 INT_TYPES = [("int8", "i8", "100"), ("int16", "i16", "30000"), ("int32", "i32", "2000000000"), ("int64", "i64", "9000000000"),
@@ -86,4 +89,15 @@ def programs(tier):
                    ("ref-of-tuple", "Ref[(bool, bool)]"), ("array-of-tuple", "[(int32, string); 2]")):
         add("helper-types-of-definitions", "unused-struct:" + n, f"struct Unused {{ t: {fty}, k: int32 }}\n" + MAINH + "    let _ = string_println(\"hi\");\n" + MAINT, ["hi"])
         add("helper-types-of-definitions", "unused-enum:" + n, f"enum Unused {{ K({fty}), Z }}\n" + MAINH + "    let _ = string_println(\"hi\");\n" + MAINT, ["hi"])
+    # ---- a type parameter applied to arguments is not a type: rejected with a diagnostic wherever it is written and however
+    # the value is used (fix b540838: a method call on such a value panicked in the inherent-method lookup)
+    uses = {"method-call": "x.foo()", "field-read": "x.v", "ufcs-call": "T::foo(x)", "passed-on": "g(x)", "returned": "x", "unused": "()"}
+    tys = {"param": "T[int32]", "nested-in-vec": "Vec[T[int32]]", "nested-application": "T[T[int32]]", "two-arguments": "T[int32, bool]", "under-ref": "Ref[T[int32]]"}
+    for un, use in uses.items():
+        for tn, ty in tys.items():
+            if tier == "quick" and (zlib.crc32((un + tn).encode()) % 3) and not (un == "method-call" or tn == "param"):
+                continue
+            ret = ty if un == "returned" else "unit"
+            body = use if un in ("returned", "unused") else f"let _ = {use}; ()"
+            add("type-parameter-applied", f"{un}:{tn}", f"fn g[U](u: U) -> unit {{ () }}\nfn f[T](x: {ty}) -> {ret} {{ {body} }}\n" + MAINH + MAINT, [], expect="reject")
     return out
